@@ -19,7 +19,7 @@ NOT_APPLICABLE = {
     "C05": "whole-framework data-race freedom over all goroutine interleavings (goroutine creation, channels, errgroup, ants pool, real epoll) has no finite SMT encoding within reach of a hand-written go/ssa encoder; see DESIGN.md section 6",
     "C06": "liveness/ordering of shutdown across the stop goroutine, every loop goroutine, ticker and errgroup.Wait needs the same whole-program concurrent model as C05; sequential lemmas are decided under C04/C03; see DESIGN.md section 6",
 }
-for _p in ("C01", "C02", "C03", "C04", "C07", "C08", "C13", "C14", "C18", "C19"):
+for _p in ("C01", "C02", "C03", "C04", "C07", "C08", "C13", "C18", "C19"):
     NOT_APPLICABLE.setdefault(_p, "check not built yet in this session (work in progress, see DESIGN.md section 10)")
 
 PROPS["C20"] = {
@@ -168,5 +168,39 @@ PROPS["C16"] = {
         {"name": "gnet-opts", "pkgdir": ".", "files": ["harness/gnet/c16_opts.go"], "mode": "bv", "contracts": ["byteslice", "ringbuffer"],
          "stub_values": GNET_STUB_VALUES, "opaque_calls": GNET_OPAQUE, "skip_pkgs": ["github.com/panjf2000/gnet/v2/pkg/logging"],
          "rewrites": {"gnet.go": _gnet_go_rewrite}},
+    ],
+}
+
+
+def _scale_columns(n):
+    def gen(src, out):
+        s = open(src).read()
+        a = "ConnMatrixColumnMax    = math.MaxUint16 + 1"
+        if a not in s:
+            raise RuntimeError("gfd.go: ConnMatrixColumnMax definition not found")
+        open(out, "w").write(s.replace(a, "ConnMatrixColumnMax    = %d // scaled by the verification overlay" % n))
+    return gen
+
+
+_C14_COMMON = {"mode": "int", "unwind": 40, "contracts": ["byteslice", "ringbuffer"], "stub_values": GNET_STUB_VALUES,
+               "opaque_calls": GNET_OPAQUE, "skip_pkgs": ["github.com/panjf2000/gnet/v2/pkg/logging"]}
+
+PROPS["C14"] = {
+    "level": "other",
+    "level_text": "Bounded symbolic execution of the real registry code of BOTH build variants (map; -tags gc_opt compacting matrix) over symbolic descriptor numbers and symbolic operation sequences (add / remove any live / iterate with and without removal), compared with a reference association list at a free probe descriptor after every step; the matrix density/reverse-index invariant is asserted after every step.",
+    "level_note": "Histories are bounded (<= 4 operations over <= 3 live connections quick; 6/4 thorough; iteration over <= 4/6 connections). The 65536-column row boundary is exercised in a SCALED configuration (ConnMatrixColumnMax rewritten to 4 in an overlay copy of internal/gfd/gfd.go, regenerated every run) so that row crossings happen within the bound; the true constant is run with populations inside one row. Trusted: go/ssa lowering, SSA->SMT translation (counterexamples replayed natively), z3.",
+    "design_ref": "DESIGN.md section 5 (C14)",
+    "explanation": "Real addConn/delConn/getConn/iterate/loadCount executed from go/ssa; map keys and descriptor numbers symbolic.",
+    "bounds": {"history": "<= 4 ops / <= 3 live (quick), <= 6 ops / <= 4 live (thorough)", "iteration_population": "<= 4 (quick) / 6 (thorough)", "columns": "scaled to 4 for row crossing; 65536 with <= 3 connections"},
+    "outside": ["populations beyond the bound", "concurrent access (the registry is loop-confined)"],
+    "assumptions": ["live descriptors are pairwise distinct (kernel)"],
+    "units": [
+        dict(_C14_COMMON, name="map", pkgdir=".", files=["harness/gnet/c14_registry.go", "harness/gnet/c14_map.go"],
+             cfg={"vcfg": {"steps": 4, "maxlive": 3, "maxpop": 4}}, cfg_thorough={"vcfg": {"steps": 6, "maxlive": 4, "maxpop": 6}}),
+        dict(_C14_COMMON, name="matrix-scaled", pkgdir=".", tags="gc_opt", mode="bv", files=["harness/gnet/c14_registry.go", "harness/gnet/c14_matrix.go"],
+             rewrites={"internal/gfd/gfd.go": _scale_columns(2)},
+             cfg={"vcfg": {"steps": 4, "maxlive": 3, "maxpop": 4}}, cfg_thorough={"vcfg": {"steps": 6, "maxlive": 5, "maxpop": 6}}),
+        dict(_C14_COMMON, name="matrix-true-constant", pkgdir=".", tags="gc_opt", tier="thorough", mode="bv", files=["harness/gnet/c14_registry.go", "harness/gnet/c14_matrix.go"],
+             cfg={"vcfg": {"steps": 3, "maxlive": 2, "maxpop": 2}}, cfg_thorough={"vcfg": {"steps": 3, "maxlive": 2, "maxpop": 2}}),
     ],
 }
